@@ -34,6 +34,7 @@ type c09Case struct {
 	Applied bool  // unknown outcome: the batch was in fact applied
 	Cont    []int // continuation steps (0..7)
 	Repair  int   // fate of the first repair commit: 0 ok, 1 plain error, 2 unknown+applied, 3 unknown+dropped
+	FaultAt int   // which commit of the faulted write is hit: 0 the first, 1 the second (a create over a tombstone commits twice)
 }
 
 func (c c09Case) String() string {
@@ -53,7 +54,7 @@ func (c c09Case) String() string {
 	for _, s := range c.Cont {
 		ct = append(ct, n(s))
 	}
-	return fmt.Sprintf("prefix=[%s] fault=%s applied=%v cont=[%s] repair-fate=%d", strings.Join(p, ","), n(c.Fault), c.Applied, strings.Join(ct, ","), c.Repair)
+	return fmt.Sprintf("prefix=[%s] fault=%s commit#%d applied=%v cont=[%s] repair-fate=%d", strings.Join(p, ","), n(c.Fault), c.FaultAt+1, c.Applied, strings.Join(ct, ","), c.Repair)
 }
 
 func c09Cases(tier string) []c09Case {
@@ -95,7 +96,13 @@ func c09Cases(tier string) []c09Case {
 			for _, ap := range []bool{true, false} {
 				for _, ct := range conts {
 					for rp := 0; rp < 4; rp++ {
-						out = append(out, c09Case{p, f, ap, ct, rp})
+						out = append(out, c09Case{p, f, ap, ct, rp, 0})
+					}
+					// the second commit of the faulted write: only a write preceded by something can have one
+					if len(p) > 0 && len(ct) <= 1 {
+						for rp := 0; rp < 4; rp++ {
+							out = append(out, c09Case{p, f, ap, ct, rp, 1})
+						}
 					}
 				}
 			}
@@ -173,7 +180,7 @@ func c09RunCase(c c09Case) (obs string, viols []mc.Violation) {
 			}
 			return hx.NoFault
 		}
-		if n >= faultCommit && !hit {
+		if n >= faultCommit+c.FaultAt && !hit {
 			hit = true
 			if c.Applied {
 				return hx.UncertainApplied
@@ -597,7 +604,7 @@ func init() {
 	mc.Register(&mc.Property{
 		ID:     "C09",
 		Level:  "fault_enumeration",
-		Rule:   "exhaustive enumeration: every history of 0-2 writes x an unknown-outcome fault on the commit of each of 6 write kinds x both variants (batch applied / not applied) x every continuation of up to 2 (thorough 3) steps from {6 writes, compaction, retry interval elapses} x 4 fates of the first repair commit (ok, plain error, unknown+applied, unknown+not applied), run on the real backend with the real sequencer and retry loop on a virtual clock; a case is distinct by its parameters and non-trivial when the fault actually hit a commit; plus every schedule (preemption-bounded DFS, bound 1 quick / 2 thorough) of the retry loop firing while a client writes the same key (create / update expecting the unresolved revision / update expecting the earlier revision / unconditional delete) and optionally a compaction request, for create / update / delete faulted, applied or not, with the same convergence oracle",
+		Rule:   "exhaustive enumeration: every history of 0-2 writes x an unknown-outcome fault on the first (and, for continuations of at most one step, the second) commit of each of 6 write kinds x both variants (batch applied / not applied) x every continuation of up to 2 (thorough 3) steps from {6 writes, compaction, retry interval elapses} x 4 fates of the first repair commit (ok, plain error, unknown+applied, unknown+not applied), run on the real backend with the real sequencer and retry loop on a virtual clock; a case is distinct by its parameters and non-trivial when the fault actually hit a commit; plus every schedule (preemption-bounded DFS, bound 1 quick / 2 thorough) of the retry loop firing while a client writes the same key (create / update expecting the unresolved revision / update expecting the earlier revision / unconditional delete) and optionally a compaction request, for create / update / delete faulted, applied or not, with the same convergence oracle",
 		Assume: []string{"in-memory engine; the unknown outcome is injected at the storage.KvStorage seam", "retry / check interval 5 s / 1 s on the virtual clock", "the enumeration uses a single client and the default schedule; the schedule scenarios cover the retry loop against a concurrent writer on the same key (and a compaction request)"},
 		Exec:   c09Exec,
 		Scenarios: func(tier string) []*mc.Scenario {
